@@ -69,8 +69,12 @@ MixWork ==
   UNION {{[kind |-> "same2", sym |-> MixSyms[o], expr |-> "A " \o MixSyms[o] \o " B", expr2 |-> "num(A) " \o MixSyms[o] \o " num(B)", pairs |-> c]
             : c \in Chunks(Pairs(IL, DecLattice)) \cup Chunks(Pairs(DecLattice, IL))} : o \in DOMAIN MixSyms}
 
+\* "/" raises DIVIDE_BY_ZERO for a zero divisor ONLY: every other decimal divisor (the smallest subnormal, infinities, NaN) and every
+\* non-zero integer divisor of a decimal gives a decimal
+DivDecWork ==
+  {[kind |-> "divdec", sym |-> "/", expr |-> "A / B", pairs |-> c] : c \in Chunks(Pairs(IM, DecLattice)) \cup Chunks(Pairs(DecLattice, DecLattice)) \cup Chunks(Pairs(DecLattice, IM))}
 VARIABLE p
-Init == p \in Work \cup MixWork
+Init == p \in Work \cup MixWork \cup DivDecWork
 Next == UNCHANGED p
 Emit == PrintT("@@S " \o ToJson([prop |-> "C03", key |-> p.expr,
           steps |-> <<IF "expr2" \in DOMAIN p
